@@ -10,23 +10,25 @@ from vp import core
 
 def main():
     prop = sys.argv[1]
-    extra = sys.argv[2].split(',') if len(sys.argv) > 2 else []
+    offset = int(next((a.split('=')[1] for a in sys.argv if a.startswith('--offset=')), '0'))
+    extra = [a for a in sys.argv[2:] if not a.startswith('--')]
+    extra = extra[0].split(',') if extra else []
     src = f'/tmp/wt/{prop}/_seed'
     for k in sorted(os.listdir(src)):
         d = os.path.join(src, k)
         if not (os.path.isdir(d) and os.path.exists(os.path.join(d, 'patch.diff'))):
             continue
-        dst = os.path.join(core.VERIF_DIR, 'seeded', f'{prop}-{k}')
+        dst = os.path.join(core.VERIF_DIR, 'seeded', f'{prop}-{int(k) + offset}')
         os.makedirs(dst, exist_ok=True)
         for fn in ('patch.diff', 'demo.py', 'notes.md'):
             if os.path.exists(os.path.join(d, fn)):
                 shutil.copy(os.path.join(d, fn), os.path.join(dst, fn))
         notes = open(os.path.join(dst, 'notes.md')).read() if os.path.exists(os.path.join(dst, 'notes.md')) else ''
-        meta = {'property': prop, 'origin': 'independent sub-agent given only the property text and a scratch worktree',
+        meta = {'property': prop, 'origin': 'independent sub-agent given only the property text and a scratch worktree' + (' (round 2: told which mechanisms round 1 had used)' if offset else ''),
                 'needs_to_manifest': notes.strip()[:1500], 'checks_expected': [prop] + extra}
         with open(os.path.join(dst, 'meta.json'), 'w') as f:
             json.dump(meta, f, indent=1)
-        subprocess.run([sys.executable, '-m', 'vp.seedcheck', dst], cwd=core.VERIF_DIR,
+        subprocess.run([sys.executable, '-m', 'vp.seedcheck', dst, '--seeds', '0,1'], cwd=core.VERIF_DIR,
                        env=dict(os.environ, PYTHONPATH=core.VERIF_DIR))
 
 
